@@ -497,3 +497,44 @@ func ruleR14_7(w *World, r *Report) {
 		r.Lost("types.ConvertValueList: value return")
 	}
 }
+
+// R17.8 collection numbers are unique
+func ruleR17_8(w *World, r *Report) {
+	u := w.Server()
+	r.Rule("R17.8", "the collection-number generator increments its counter atomically (FindOneAndUpdate with $inc and upsert) and hands out the counter AFTER the increment (ReturnDocument = After): the document before the increment is missing for the first call and the same for the first two, so two collections would share a number, and everything scoped by the number (datatypes, operations, snapshots, clients, purges) would be shared too", 1)
+	fn := u.Fn(pMongo, "MongoCollections", "GetNextCollectionNum")
+	if fn == nil {
+		r.Lost("MongoCollections.GetNextCollectionNum")
+		return
+	}
+	var fau ssa.CallInstruction
+	for _, c := range callsNamed(fn, "FindOneAndUpdate") {
+		fau = c
+	}
+	if fau == nil {
+		r.Lost("GetNextCollectionNum: FindOneAndUpdate")
+		return
+	}
+	after := ""
+	for path, p := range u.Prog.ImportedPackage("go.mongodb.org/mongo-driver/mongo/options").Members {
+		if path == "After" {
+			if k, ok := p.(*ssa.NamedConst); ok {
+				after = k.Value.Value.ExactString()
+			}
+		}
+	}
+	okAfter, okUpsert := false, false
+	for _, c := range callsNamed(fn, "SetReturnDocument") {
+		a := c.Common().Args
+		if k, isK := a[len(a)-1].(*ssa.Const); isK && k.Value != nil && after != "" && k.Value.ExactString() == after && instrDominates(c.(ssa.Instruction), fau.(ssa.Instruction)) {
+			okAfter = true
+		}
+	}
+	for _, c := range callsNamed(fn, "SetUpsert") {
+		a := c.Common().Args
+		if k, isK := a[len(a)-1].(*ssa.Const); isK && k.Value != nil && k.Value.ExactString() == "true" && instrDominates(c.(ssa.Instruction), fau.(ssa.Instruction)) {
+			okUpsert = true
+		}
+	}
+	r.Check(okAfter && okUpsert, "GetNextCollectionNum/number after the increment", u.Pos(fau.Pos()), "upsert, $inc, ReturnDocument(After)", fmt.Sprintf("the generator returns the counter document as it was BEFORE the increment (upsert=%v, ReturnDocument(After)=%v): the first call finds none and answers 1, the second finds {num:1} and answers 1 again", okUpsert, okAfter))
+}
